@@ -1,12 +1,14 @@
-import MW.Inv.WorldLst
+import MW.Inv.WorldD
 /-!
 # Ledger invariants over the chain model: part 3, every event of every history
 
-`WInv` = the packet coupling (P2) + the LST supply equation (L1) + the LST custody equation (L2),
-stated on the *chain model's own ledgers* (token-factory supply, bank balance of the contract),
-and preserved by every event of the world: transactions with their sub-message replies and
-whole-transaction rollback, ibc-hooks deliveries, acknowledgements, timeouts, stray callbacks,
-donations, faucets and clock advances — under the honest-environment conditions `EvOK`.
+`WInv` = the packet coupling (P2) + the LST supply equation (L1) + the LST custody equation (L2)
++ the solvency equation of the staked asset (N2) + the location equation of what was forwarded
+toward the staker (F1), stated on the *chain model's own ledgers* (token-factory supply, bank
+balance of the contract, the chain's packet list), and preserved by every event of the world:
+transactions with their sub-message replies and whole-transaction rollback, ibc-hooks deliveries,
+acknowledgements, timeouts, stray callbacks, donations, faucets and clock advances — under the
+honest-environment conditions `EvOK`.
 -/
 namespace MW.Chain
 open MW MW.Staking
@@ -15,18 +17,45 @@ open MW MW.Staking
 structure WGhost where
   rebaseL : Int := 0        -- what ResumeContract declared beyond the actual supply
   donL : Nat := 0           -- LST given to the contract outside the protocol
+  swept : Nat := 0          -- native total moved into the fee counter when the LST total was zero
+  paid : Int := 0           -- staked asset paid out by withdrawals
+  donD : Int := 0           -- staked asset given to the contract outside the protocol
+  fwd : Nat := 0            -- staked asset forwarded toward the staker (stakes and net rewards)
 
 structure WInv (w : World) (g : WGhost) : Prop where
   pkt : WPkt w
   l1 : (w.supply w.c.config.lstDenom : Int) + g.rebaseL = w.c.st.totalLst
   l2 : w.bal w.self w.c.config.lstDenom = pendTotal w.c + refundableSum w.c w.c.config.lstDenom + g.donL
+  n2 : (w.bal w.self w.c.config.proto.ibcDenom : Int) + g.swept + g.paid = owedD w.c + g.donD
+  f1 : locW w.c.config.native.staker w.c.config.proto.ibcDenom w.pkts
+        + locC w.c.config.native.staker w.c.config.proto.ibcDenom w.c = g.fwd
 
-/-- counters after a committed transaction -/
-def ghostExec (w : World) (g : WGhost) (funds : List Coin) : ExecMsg → WGhost
-  | .liquidUnstake => g
-  | .resumeContract _ l _ =>
-    { rebaseL := (l : Int) - w.supply w.c.config.lstDenom, donL := g.donL + coinSum w.c.config.lstDenom funds }
-  | _ => { g with donL := g.donL + coinSum w.c.config.lstDenom funds }
+/-- the messages the handler of a transaction returns (`[]` if it fails) -/
+def execOut (w : World) (sender : String) (funds : List Coin) (msg : ExecMsg) (txi : Option Nat) : List SubMsg :=
+  match execute w.c (w.env txi) { sender := sender, funds := funds } msg with
+  | .ok (_, out) => out
+  | .error _ => []
+
+/-- staked asset newly forwarded toward the staker by a response (a recovery re-sends, it does not add) -/
+def fwdDelta (S D : String) (out : List SubMsg) : ExecMsg → Nat
+  | .recover .. => 0
+  | _ => trSum S D out
+
+/-- counters after a committed transaction whose handler returned `out` -/
+def ghostExec (w : World) (g : WGhost) (funds : List Coin) (msg : ExecMsg) (out : List SubMsg) : WGhost :=
+  let X := w.c.config.lstDenom
+  let D := w.c.config.proto.ibcDenom
+  let S := w.c.config.native.staker
+  { rebaseL := (match msg with
+      | .resumeContract _ l _ => (l : Int) - w.supply X
+      | _ => g.rebaseL),
+    donL := (match msg with
+      | .liquidUnstake => g.donL
+      | _ => g.donL + coinSum X funds),
+    swept := g.swept + sweptDelta w.c msg,
+    paid := g.paid + paidDelta w.self D out msg,
+    donD := g.donD + coinSum D funds - consumedD D funds msg,
+    fwd := g.fwd + fwdDelta S D out msg }
 
 theorem cfginv_reach {s : CState} (h : CReach s) : CfgInv s := by
   obtain ⟨env, info, msg, s0, out, evs, hi, rfl⟩ := h
@@ -52,7 +81,7 @@ theorem wpkt_after_handler {w : World} {c' : CState} {bal1 : Bal} (hp : WPkt w)
 theorem exec_winv {w w' : World} {g : WGhost} {sender : String} {funds : List Coin} {msg : ExecMsg} {f : Faults}
     {txi : Option Nat} {calls : List Call} (hr : CReach w.c) (hi : WInv w g) (hs : sender ≠ w.self)
     (hok : MsgOKc w.c w.self sender msg) (hx : runExecCore w sender funds msg f txi = (some w', calls)) :
-    WInv w' (ghostExec w g funds msg) := by
+    WInv w' (ghostExec w g funds msg (execOut w sender funds msg txi)) := by
   have hci := cinv_reach hr
   have hcf := cfginv_reach hr
   unfold runExecCore at hx
@@ -60,7 +89,8 @@ theorem exec_winv {w w' : World} {g : WGhost} {sender : String} {funds : List Co
   split at hx
   · cases hx
   · rename_i bal1 hbal
-    have hb1 : bal1 w.self w.c.config.lstDenom = w.bal w.self w.c.config.lstDenom + coinSum w.c.config.lstDenom funds := by
+    have hb1 : ∀ X, bal1 w.self X = w.bal w.self X + coinSum X funds := by
+      intro X
       split at hbal
       · rename_i he
         cases hbal
@@ -76,23 +106,55 @@ theorem exec_winv {w w' : World} {g : WGhost} {sender : String} {funds : List Co
           have := congrArg Prod.fst hx
           simpa using this
         subst hw'
+        have hout : execOut w sender funds msg txi = msgs := by
+          unfold execOut
+          simp only [World.env] at hexec ⊢
+          rw [hexec]
+        rw [hout]
         have facts : ExecFacts w.c c' w.self funds msg msgs :=
           execute_facts (hx := hexec) hci hcf rfl hok
+        have factsD : ExecFactsD w.c c' w.self funds msg msgs :=
+          execute_factsD (hx := hexec) hci hcf rfl hok
         have hpk0 : WPkt { w with bal := bal1, c := c' } := wpkt_after_handler hi.pkt facts.chan facts.noNew facts.keepSent
-        obtain ⟨m1, m2, m3, m4, m5, m6, m7, m8, m9⟩ :=
+        obtain ⟨m1, m2, m3, m4, m5, m6, m7, m8, m9, m10, m11⟩ :=
           dispatchAll_mid (d := { w := { w with bal := bal1, c := c' }, calls := _ }) w.c.config.lstDenom hpk0 facts.tracked hdisp
-        simp only at m2 m3 m4 m5 m6 m7 m8 m9
+        obtain ⟨_, _, n3, _, _, _, _, _, n9, _, _⟩ :=
+          dispatchAll_mid (d := { w := { w with bal := bal1, c := c' }, calls := _ }) w.c.config.proto.ibcDenom hpk0 facts.tracked hdisp
+        simp only at m2 m3 m4 m5 m6 m7 m8 m9 m10 m11 n3 n9
         have hl : d.w.c.config.lstDenom = w.c.config.lstDenom := by rw [m8]; exact facts.lst
+        have hdn : d.w.c.config.proto.ibcDenom = w.c.config.proto.ibcDenom := by rw [m8]; exact factsD.dn
+        have hstk : d.w.c.config.native.staker = w.c.config.native.staker := by rw [m8]; exact factsD.staker
         have hpt : pendTotal d.w.c = pendTotal c' := pendTotal_congr m5 m6
+        have howedD : owedD d.w.c = owedD c' := by
+          unfold owedD recvSum
+          rw [m5, m7, m8]
+          have := n9
+          rw [← factsD.dn] at this
+          rw [this]
+        have hlocC : locC w.c.config.native.staker w.c.config.proto.ibcDenom d.w.c
+            = locC w.c.config.native.staker w.c.config.proto.ibcDenom c' := by
+          unfold locC; exact m10 _
         have howed := facts.owed
         have hsup := facts.sup
-        refine ⟨m1, ?_, ?_⟩
+        have hoD := factsD.owed
+        have hloc := factsD.loc
+        have hbL := hb1 w.c.config.lstDenom
+        have hbD := hb1 w.c.config.proto.ibcDenom
+        have hlw := m11 w.c.config.native.staker w.c.config.proto.ibcDenom
+        refine ⟨m1, ?_, ?_, ?_, ?_⟩
         · rw [hl, m7]
           have h1 := hi.l1
           cases msg <;> simp only [ghostExec, SupSpec] at hsup ⊢ <;> omega
         · rw [hl, m2, hpt, m9]
           have h2 := hi.l2
           cases msg <;> simp only [ghostExec, unstakeFunds] at howed ⊢ <;> omega
+        · rw [hdn, m2, howedD]
+          have h3 := hi.n2
+          simp only [ghostExec]
+          omega
+        · rw [hdn, hstk, hlw, hlocC]
+          have h4 := hi.f1
+          cases msg <;> simp only [ghostExec, fwdDelta, recDelta] at hloc ⊢ <;> omega
       · cases hx
 
 /-! ## acknowledgements and timeouts -/
@@ -132,16 +194,84 @@ def deliverWorld (w : World) (p : ChainPkt) (rem : Bal) : World :=
   let c' : CState := { w.c with inflight := w.c.inflight.erase p.seq }
   { w with pkts := setPktState w.pkts p.seq .delivered, remote := rem, c := c' }
 
+theorem setPktState_of_not_mem {pkts : List ChainPkt} {seq : Nat} {st : PktState}
+    (h : ∀ q ∈ pkts, q.seq ≠ seq) : setPktState pkts seq st = pkts := by
+  unfold setPktState
+  induction pkts with
+  | nil => rfl
+  | cons q rest ih =>
+    have hq := h q (by simp)
+    simp only [List.map_cons, hq, ↓reduceIte]
+    rw [ih (fun x hx => h x (List.mem_cons_of_mem _ hx))]
+
+/-- changing the state of one packet changes the located sum by exactly that packet's contribution -/
+theorem locW_setState {pkts : List ChainPkt} {p : ChainPkt} (S D : String) (st : PktState)
+    (hnd : (pkts.map (·.seq)).Nodup) (hp : p ∈ pkts) :
+    locW S D (setPktState pkts p.seq st) + locPkt S D p = locW S D pkts + locPkt S D { p with state := st } := by
+  induction pkts with
+  | nil => simp at hp
+  | cons q rest ih =>
+    simp only [List.map_cons, List.nodup_cons] at hnd
+    by_cases hq : q.seq = p.seq
+    · have hqp : q = p := by
+        simp only [List.mem_cons] at hp
+        rcases hp with hp | hp
+        · exact hp.symm
+        · exact absurd (List.mem_map.mpr ⟨p, hp, rfl⟩) (hq ▸ hnd.1)
+      subst hqp
+      have hrest : setPktState rest q.seq st = rest := by
+        apply setPktState_of_not_mem
+        intro x hx e
+        exact hnd.1 (List.mem_map.mpr ⟨x, hx, e⟩)
+      have : setPktState (q :: rest) q.seq st = { q with state := st } :: rest := by
+        show (if q.seq = q.seq then _ else _) :: setPktState rest q.seq st = _
+        simp [hrest]
+      rw [this]
+      simp only [locW, List.map_cons, List.sum_cons]
+      omega
+    · have hp' : p ∈ rest := by
+        simp only [List.mem_cons] at hp
+        rcases hp with hp | hp
+        · subst hp; exact absurd rfl hq
+        · exact hp
+      have := ih hnd.2 hp'
+      have hs : setPktState (q :: rest) p.seq st = q :: setPktState rest p.seq st := by
+        show (if q.seq = p.seq then _ else _) :: setPktState rest p.seq st = _
+        simp [hq]
+      rw [hs]
+      simp only [locW, List.map_cons, List.sum_cons] at this ⊢
+      omega
+
+/-- the refund of a pending packet: coins of its denom come back, the same amount becomes refundable -/
+theorem refund_amounts {w : World} {g : WGhost} {p : ChainPkt} {st : PktStatus} (hr : CReach w.c) (hi : WInv w g)
+    (hpm : p ∈ w.pkts) (hpend : p.state = .pending) (hst : st = .ackFailure ∨ st = .timedOut) (P : String → String → Bool) :
+    AMap.sumBy (refW P) (w.c.inflight.insert p.seq (entryOf p st))
+      = AMap.sumBy (refW P) w.c.inflight + (if P p.coin.denom p.receiver then p.coin.amount else 0) := by
+  have hci := cinv_reach hr
+  obtain ⟨_, hentry⟩ := hi.pkt.p2 p hpm hpend
+  have hsum := AMap.sumBy_insert_old (refW P) hci.sortedI (entryOf p st) _ hentry
+  have hold : refW P (⟨p.seq, p.coin, p.receiver, .sent⟩ : Packet) = 0 := by simp [refW]
+  have hnew : refW P (entryOf p st) = if P p.coin.denom p.receiver then p.coin.amount else 0 := by
+    rcases hst with h | h <;> subst h <;> simp [refW, entryOf]
+  rw [hold, hnew] at hsum
+  omega
+
 /-- a pending packet is refunded (error acknowledgement or timeout): the coins come back to the
 contract and its entry becomes refundable -/
 theorem refund_winv {w : World} {g : WGhost} {p : ChainPkt} {st : PktStatus} (hr : CReach w.c) (hi : WInv w g)
     (hpm : p ∈ w.pkts) (hpend : p.state = .pending) (hst : st = .ackFailure ∨ st = .timedOut) :
     WInv (refundWorld w p st) g := by
-  unfold refundWorld entryOf
   have hci := cinv_reach hr
   obtain ⟨_, hentry⟩ := hi.pkt.p2 p hpm hpend
   have hself := hi.pkt.sender p hpm
-  refine ⟨⟨?_, ?_, ?_, ?_, ?_⟩, hi.l1, ?_⟩
+  have hL := refund_amounts hr hi hpm hpend hst (fun d _ => decide (d = w.c.config.lstDenom))
+  have hD := refund_amounts hr hi hpm hpend hst (fun d _ => decide (d = w.c.config.proto.ibcDenom))
+  have hS := refund_amounts hr hi hpm hpend hst
+    (fun d r => d == w.c.config.proto.ibcDenom && r == w.c.config.native.staker)
+  rw [← refundedAmt_eq_refW] at hL hD
+  have hW := locW_setState w.c.config.native.staker w.c.config.proto.ibcDenom .refunded hi.pkt.nodup hpm
+  unfold refundWorld
+  refine ⟨⟨?_, ?_, ?_, ?_, ?_⟩, hi.l1, ?_, ?_, ?_⟩
   · intro q hq
     obtain ⟨q0, hq0, rfl⟩ := mem_setPktState hq
     have := hi.pkt.sender q0 hq0
@@ -167,35 +297,61 @@ theorem refund_winv {w : World} {g : WGhost} {p : ChainPkt} {st : PktStatus} (hr
       refine ⟨h1, ?_⟩
       simp only [AMap.find?_insert, hne, ↓reduceIte]
       exact h2
-  · have hsum := AMap.sumBy_insert_old (refundedAmt w.c.config.lstDenom) hci.sortedI
-      { seq := p.seq, coin := p.coin, receiver := p.receiver, status := st } _ hentry
-    have h2 := hi.l2
-    simp only [refundableSum, pendTotal] at h2 ⊢
-    simp only [Bal.add_apply, hself, true_and]
-    have hold : refundedAmt w.c.config.lstDenom (⟨p.seq, p.coin, p.receiver, .sent⟩ : Packet) = 0 := by
-      simp [refundedAmt]
-    have hnew : refundedAmt w.c.config.lstDenom (⟨p.seq, p.coin, p.receiver, st⟩ : Packet)
-        = if p.coin.denom = w.c.config.lstDenom then p.coin.amount else 0 := by
-      rcases hst with h | h <;> subst h <;> simp [refundedAmt]
-    rw [hold, hnew] at hsum
+  · have h2 := hi.l2
+    simp only [refundableSum, pendTotal] at h2 hL ⊢
+    simp only [Bal.add_apply, hself, true_and, decide_eq_true_eq] at hL ⊢
     split
     · rename_i hd
       have hd' : p.coin.denom = w.c.config.lstDenom := hd.symm
-      simp only [hd', ↓reduceIte] at hsum
+      simp only [hd', ↓reduceIte] at hL
       omega
     · rename_i hd
       have hd' : ¬ p.coin.denom = w.c.config.lstDenom := fun e => hd e.symm
-      simp only [hd', ↓reduceIte] at hsum
+      simp only [hd', ↓reduceIte] at hL
+      omega
+  · have h3 := hi.n2
+    simp only [owedD, recvSum, refundableSum] at h3 hD ⊢
+    simp only [Bal.add_apply, hself, true_and, decide_eq_true_eq] at hD ⊢
+    split
+    · rename_i hd
+      have hd' : p.coin.denom = w.c.config.proto.ibcDenom := hd.symm
+      simp only [hd', ↓reduceIte] at hD
+      omega
+    · rename_i hd
+      have hd' : ¬ p.coin.denom = w.c.config.proto.ibcDenom := fun e => hd e.symm
+      simp only [hd', ↓reduceIte] at hD
+      omega
+  · have h4 := hi.f1
+    simp only [locC] at h4 hS ⊢
+    simp only [locPkt, hpend, true_or, and_true, reduceCtorEq, or_self, and_false, ↓reduceIte] at hW
+    simp only [Bool.and_eq_true, beq_iff_eq] at hS
+    split at hS
+    · rename_i hc
+      simp only [hc, and_self, ↓reduceIte] at hW
+      omega
+    · rename_i hc
+      have : ¬ (p.coin.denom = w.c.config.proto.ibcDenom ∧ p.receiver = w.c.config.native.staker) := hc
+      simp only [this, ↓reduceIte] at hW
       omega
 
 /-- a pending packet is delivered: its entry is dropped, nothing comes back -/
 theorem deliver_winv {w : World} {g : WGhost} {p : ChainPkt} {rem : Bal} (hr : CReach w.c) (hi : WInv w g)
     (hpm : p ∈ w.pkts) (hpend : p.state = .pending) :
     WInv (deliverWorld w p rem) g := by
-  unfold deliverWorld
   have hci := cinv_reach hr
   obtain ⟨_, hentry⟩ := hi.pkt.p2 p hpm hpend
-  refine ⟨⟨?_, ?_, ?_, ?_, ?_⟩, hi.l1, ?_⟩
+  have hsumP : ∀ P, AMap.sumBy (refW P) (w.c.inflight.erase p.seq) = AMap.sumBy (refW P) w.c.inflight := by
+    intro P
+    have := AMap.sumBy_erase_old (refW P) hci.sortedI _ hentry
+    have hold : refW P (⟨p.seq, p.coin, p.receiver, .sent⟩ : Packet) = 0 := by simp [refW]
+    rw [hold] at this
+    omega
+  have hL := hsumP (fun d _ => decide (d = w.c.config.lstDenom))
+  have hD := hsumP (fun d _ => decide (d = w.c.config.proto.ibcDenom))
+  rw [← refundedAmt_eq_refW] at hL hD
+  have hW := locW_setState w.c.config.native.staker w.c.config.proto.ibcDenom .delivered hi.pkt.nodup hpm
+  unfold deliverWorld
+  refine ⟨⟨?_, ?_, ?_, ?_, ?_⟩, hi.l1, ?_, ?_, ?_⟩
   · intro q hq
     obtain ⟨q0, hq0, rfl⟩ := mem_setPktState hq
     have := hi.pkt.sender q0 hq0
@@ -221,12 +377,16 @@ theorem deliver_winv {w : World} {g : WGhost} {p : ChainPkt} {rem : Bal} (hr : C
       refine ⟨h1, ?_⟩
       simp only [AMap.find?_erase, hne, ↓reduceIte]
       exact h2
-  · have hsum := AMap.sumBy_erase_old (refundedAmt w.c.config.lstDenom) hci.sortedI _ hentry
-    have h2 := hi.l2
-    simp only [refundableSum, pendTotal] at h2 ⊢
-    have hold : refundedAmt w.c.config.lstDenom (⟨p.seq, p.coin, p.receiver, .sent⟩ : Packet) = 0 := by
-      simp [refundedAmt]
-    rw [hold] at hsum
+  · have h2 := hi.l2
+    simp only [refundableSum, pendTotal] at h2 hL ⊢
+    omega
+  · have h3 := hi.n2
+    simp only [owedD, recvSum, refundableSum] at h3 hD ⊢
+    omega
+  · have h4 := hi.f1
+    simp only [locC] at h4 ⊢
+    rw [hsumP]
+    simp only [locPkt, hpend, true_or, or_true, and_true] at hW
     omega
 
 /-! ## every event -/
@@ -248,17 +408,26 @@ def EvOK (w : World) : Event → Prop
 def wgstep (w : World) (g : WGhost) (e : Event) : WGhost :=
   if (step w e).committed then
     match e with
-    | .exec _ funds msg _ _ => ghostExec w g funds msg
-    | .hook _ _ coin msg _ => ghostExec w g [coin] msg
-    | .donate _ coin => { g with donL := g.donL + coinSum w.c.config.lstDenom [coin] }
-    | .faucet to coin => if to = w.self then { g with donL := g.donL + coinSum w.c.config.lstDenom [coin] } else g
+    | .exec sender funds msg _ txi => ghostExec w g funds msg (execOut w sender funds msg txi)
+    | .hook channel ns coin msg _ =>
+      match deriveIntermediateSender channel ns w.chainPrefix with
+      | some acct => ghostExec w g [coin] msg (execOut w acct [coin] msg (some 0))
+      | none => g
+    | .donate _ coin =>
+      { g with donL := g.donL + coinSum w.c.config.lstDenom [coin],
+               donD := g.donD + coinSum w.c.config.proto.ibcDenom [coin] }
+    | .faucet to coin =>
+      if to = w.self then
+        { g with donL := g.donL + coinSum w.c.config.lstDenom [coin],
+                 donD := g.donD + coinSum w.c.config.proto.ibcDenom [coin] }
+      else g
     | _ => g
   else g
 
 theorem winv_frame {w w' : World} {g : WGhost} (hi : WInv w g) (hc : w'.c = w.c) (hs : w'.self = w.self)
     (hp : w'.pkts = w.pkts) (hn : w'.nextSeq = w.nextSeq) (hsup : w'.supply = w.supply)
-    (hb : w'.bal w.self w.c.config.lstDenom = w.bal w.self w.c.config.lstDenom) : WInv w' g := by
-  refine ⟨⟨?_, ?_, ?_, ?_, ?_⟩, ?_, ?_⟩
+    (hb : ∀ X, w'.bal w.self X = w.bal w.self X) : WInv w' g := by
+  refine ⟨⟨?_, ?_, ?_, ?_, ?_⟩, ?_, ?_, ?_, ?_⟩
   · rw [hp, hs]; exact hi.pkt.sender
   · rw [hp, hn]; exact hi.pkt.seqLt
   · rw [hp]; exact hi.pkt.nodup
@@ -266,11 +435,13 @@ theorem winv_frame {w w' : World} {g : WGhost} (hi : WInv w g) (hc : w'.c = w.c)
   · rw [hp, hc]; exact hi.pkt.p2
   · rw [hc, hsup]; exact hi.l1
   · rw [hc, hs, hb]; exact hi.l2
+  · rw [hc, hs, hb]; exact hi.n2
+  · rw [hc, hp]; exact hi.f1
 
 theorem runExec_winv {w : World} {g : WGhost} {sender : String} {funds : List Coin} {msg : ExecMsg} {f : Faults}
     {txi : Option Nat} (hr : CReach w.c) (hi : WInv w g) (hs : sender ≠ w.self) (hok : MsgOKc w.c w.self sender msg) :
     WInv (runExec w sender funds msg f txi).w
-      (if (runExec w sender funds msg f txi).committed then ghostExec w g funds msg else g) := by
+      (if (runExec w sender funds msg f txi).committed then ghostExec w g funds msg (execOut w sender funds msg txi) else g) := by
   unfold runExec
   cases hcore : runExecCore w sender funds msg f txi with
   | mk o calls =>
@@ -318,7 +489,7 @@ theorem step_winv {w : World} {g : WGhost} (e : Event) (hr : CReach w.c) (hi : W
   cases e with
   | advance dt dh =>
     simp only [step, wgstep, ↓reduceIte]
-    exact winv_frame hi rfl rfl rfl rfl rfl rfl
+    exact winv_frame hi rfl rfl rfl rfl rfl (fun _ => rfl)
   | exec sender funds msg f txi =>
     obtain ⟨hs, hm⟩ := hok
     simp only [step, wgstep]
@@ -335,6 +506,7 @@ theorem step_winv {w : World} {g : WGhost} (e : Event) (hr : CReach w.c) (hi : W
       · simp only [h0, ↓reduceIte]
         have hi1 : WInv { w with bal := w.bal.add acct coin.denom coin.amount } g := by
           refine winv_frame hi rfl rfl rfl rfl rfl ?_
+          intro X
           simp only [Bal.add_apply]
           have : ¬ w.self = acct := fun e => hs e.symm
           simp [this]
@@ -408,27 +580,38 @@ theorem step_winv {w : World} {g : WGhost} (e : Event) (hr : CReach w.c) (hi : W
       subst hstep
       simp only [↓reduceIte]
       have h1 := (bankMove_ok (show sender ≠ w.self from hok) hb w.c.config.lstDenom).1
-      refine ⟨⟨hi.pkt.sender, hi.pkt.seqLt, hi.pkt.nodup, hi.pkt.keyLt, hi.pkt.p2⟩, hi.l1, ?_⟩
-      have h2 := hi.l2
-      simp only at h2 ⊢
-      omega
+      have h1D := (bankMove_ok (show sender ≠ w.self from hok) hb w.c.config.proto.ibcDenom).1
+      refine ⟨⟨hi.pkt.sender, hi.pkt.seqLt, hi.pkt.nodup, hi.pkt.keyLt, hi.pkt.p2⟩, hi.l1, ?_, ?_, hi.f1⟩
+      · have h2 := hi.l2
+        simp only at h2 ⊢
+        omega
+      · have h3 := hi.n2
+        simp only at h3 ⊢
+        omega
   | faucet to coin =>
     simp only [step, wgstep, ↓reduceIte]
     by_cases ht : to = w.self
     · subst ht
       simp only [↓reduceIte]
-      refine ⟨⟨hi.pkt.sender, hi.pkt.seqLt, hi.pkt.nodup, hi.pkt.keyLt, hi.pkt.p2⟩, hi.l1, ?_⟩
-      have h2 := hi.l2
-      simp only [Bal.add_apply, coinSum, true_and] at h2 ⊢
-      split
-      · rename_i hd
-        have : coin.denom = w.c.config.lstDenom := hd.symm
-        simp only [this, ↓reduceIte]; omega
-      · rename_i hd
-        have : ¬ coin.denom = w.c.config.lstDenom := fun e => hd e.symm
-        simp only [this, ↓reduceIte]; omega
+      have hbX : ∀ X, (w.bal.add w.self coin.denom coin.amount) w.self X = w.bal w.self X + coinSum X [coin] := by
+        intro X
+        simp only [Bal.add_apply, coinSum, true_and]
+        by_cases hd : coin.denom = X
+        · subst hd; simp
+        · have : ¬ X = coin.denom := fun e => hd e.symm
+          simp [hd, this]
+      refine ⟨⟨hi.pkt.sender, hi.pkt.seqLt, hi.pkt.nodup, hi.pkt.keyLt, hi.pkt.p2⟩, hi.l1, ?_, ?_, hi.f1⟩
+      · have h2 := hi.l2
+        have := hbX w.c.config.lstDenom
+        simp only at h2 this ⊢
+        omega
+      · have h3 := hi.n2
+        have := hbX w.c.config.proto.ibcDenom
+        simp only at h3 this ⊢
+        omega
     · simp only [ht, ↓reduceIte]
       refine winv_frame hi rfl rfl rfl rfl rfl ?_
+      intro X
       have : ¬ w.self = to := fun e => ht e.symm
       simp [Bal.add_apply, this]
 
@@ -459,7 +642,7 @@ theorem winv_boot {env : Env} {info : Info} {msg : InstantiateMsg} {c0 : CState}
   simp only [bind_ok, pure_ok, add64_ok] at hi
   obtain ⟨_, _, _, _, _, _, _, _, _, _, _, _, _, _, hi⟩ := hi
   cases hi
-  refine ⟨⟨?_, ?_, ?_, ?_, ?_⟩, ?_, ?_⟩
+  refine ⟨⟨?_, ?_, ?_, ?_, ?_⟩, ?_, ?_, ?_, ?_⟩
   · intro p hp; simp [bootWorld] at hp
   · intro p hp; simp [bootWorld] at hp
   · simp [bootWorld]
@@ -467,6 +650,8 @@ theorem winv_boot {env : Env} {info : Info} {msg : InstantiateMsg} {c0 : CState}
   · intro p hp; simp [bootWorld] at hp
   · simp [bootWorld]
   · simp [bootWorld, pendTotal, refundableSum, AMap.find?, Batch.new]
+  · simp [bootWorld, owedD, recvSum, refundableSum, AMap.sumBy, recvAmt, Batch.new]
+  · simp [bootWorld, locW, locC]
 
 /-- **Ledger invariants along every history of the chain model** (unbounded length; any interleaving of
 transactions with sub-message replies and rollbacks, ibc-hooks deliveries, acknowledgements,
@@ -485,10 +670,16 @@ theorem world_history_winv {env : Env} {info : Info} {msg : InstantiateMsg} {c0 
 
 def msgOKb (s : CState) (self sender : String) : ExecMsg → Bool
   | .liquidStake mt _ _ => mt.getD sender != self
-  | .updateConfig _ p _ _ _ => match p with
-    | some pr => pr.channel == s.config.proto.channel
-    | none => true
+  | .updateConfig n p _ _ _ =>
+    (match p with
+     | some pr => pr.channel == s.config.proto.channel && pr.ibcDenom == s.config.proto.ibcDenom
+     | none => true)
+    && (match n with
+     | some nr => nr.staker == s.config.native.staker
+     | none => true)
   | .recover _ sel _ => sel.isNone
+  | .receiveRewards => s.config.feeCfg.treasury != some self
+  | .feeWithdraw _ => s.config.feeCfg.treasury != some self
   | _ => true
 
 theorem msgOKb_sound {s : CState} {self sender : String} {m : ExecMsg} (h : msgOKb s self sender m = true) :
@@ -496,8 +687,13 @@ theorem msgOKb_sound {s : CState} {self sender : String} {m : ExecMsg} (h : msgO
   cases m <;> simp only [msgOKb, MsgOKc] at h ⊢
   case liquidStake mt tn ex => simpa using h
   case updateConfig n p f mo bp =>
-    intro pr hp; subst hp; simpa using h
+    simp only [Bool.and_eq_true] at h
+    refine ⟨?_, ?_⟩
+    · intro pr hp; subst hp; simpa using h.1
+    · intro nr hn; subst hn; simpa using h.2
   case recover pg sel rc => cases sel <;> simp_all
+  case receiveRewards => simpa using h
+  case feeWithdraw a => simpa using h
 
 def evOKb (w : World) : Event → Bool
   | .exec sender _ msg _ _ => sender != w.self && msgOKb w.c w.self sender msg
